@@ -29,6 +29,9 @@ pub struct C08Case {
     pub max_pdi: u16,
     pub to_op: bool,
     pub seed: u64,
+    /// Configure DC sync on the PRE-OP group first (no device asks for sync pulses), then go on
+    #[serde(default)]
+    pub dc_first: bool,
 }
 
 pub fn c08_case() -> impl Strategy<Value = C08Case> {
@@ -48,9 +51,10 @@ pub fn c08_case() -> impl Strategy<Value = C08Case> {
             prop::sample::select(vec![8u16, 32, 128, 1024, 1024]),
             any::<bool>(),
             any::<u64>(),
+            prop::bool::weighted(0.12),
         )
-            .prop_map(move |(devs, assign, max_pdi, to_op, seed)| {
-                let devices = devs
+            .prop_map(move |(devs, assign, max_pdi, to_op, seed, dc_first)| {
+                let devices: Vec<DevKnobs> = devs
                     .into_iter()
                     .map(|(mut k, ovs, use_ovs, noncontig)| {
                         k.sii_busy_polls = 0;
@@ -76,7 +80,14 @@ pub fn c08_case() -> impl Strategy<Value = C08Case> {
                     })
                     .collect();
 
-                C08Case { devices, ngroups, assign, max_pdi, to_op, seed }
+                let mut devices = devices;
+
+                if dc_first {
+                    // a reference clock must exist
+                    devices[0].dc = crate::simnet::DcKind::Bits64;
+                }
+
+                C08Case { devices, ngroups, assign, max_pdi, to_op, seed, dc_first }
             })
     })
 }
@@ -123,12 +134,12 @@ fn in_pattern(seed: u64, dev: usize, len: usize) -> Vec<u8> {
     bytes_from_seed(seed ^ (dev as u64 * 0x85eb_ca6b) ^ 0xaaaa_0000, len).into_iter().map(|b| b | 2).collect()
 }
 
-async fn experiment<const P: usize, S: HasPdi>(
+async fn experiment<const P: usize, S: HasPdi, DC>(
     md: &MainDevice<'_>,
     net: &NetHandle,
     case: &C08Case,
     members: &[Vec<usize>],
-    groups: &[Option<SubDeviceGroup<16, P, ethercrab::DefaultLock, S>>],
+    groups: &[Option<SubDeviceGroup<16, P, ethercrab::DefaultLock, S, DC>>],
     outs: &mut [GroupOut],
     ram_before: &mut Vec<Vec<u8>>,
     frames: &mut Vec<Vec<Vec<u8>>>,
@@ -233,6 +244,44 @@ async fn c08_body<const P: usize>(md: &MainDevice<'_>, net: &NetHandle, case: &C
 
     let [g0, g1, g2] = groups.g;
     let mut outs: Vec<GroupOut> = Vec::new();
+
+    if case.dc_first {
+        let conf = ethercrab::subdevice_group::DcConfiguration {
+            start_delay: std::time::Duration::from_millis(1),
+            sync0_period: std::time::Duration::from_millis(1),
+            sync0_shift: std::time::Duration::ZERO,
+        };
+
+        let mut safe = Vec::new();
+
+        for g in [g0, g1, g2] {
+            let r = match g.configure_dc_sync(md, conf).await {
+                Ok(g) => g.into_safe_op(md).await,
+                Err(e) => Err(e),
+            };
+
+            match r {
+                Ok(g) => {
+                    outs.push(GroupOut::Ok { windows: vec![], cycle: Err("not run".into()) });
+                    safe.push(Some(g));
+                }
+                Err(e) => {
+                    let too_long = if let Error::PdiTooLong { max_length, desired_length } = e { Some((max_length, desired_length)) } else { None };
+
+                    outs.push(GroupOut::Failed { too_long, err: format!("{e:?}") });
+                    safe.push(None);
+                }
+            }
+        }
+
+        let mut ram_before = Vec::new();
+        let mut frames = vec![Vec::new(); 3];
+
+        experiment(md, net, case, members, &safe, &mut outs, &mut ram_before, &mut frames).await;
+
+        return Ok(PdObs { groups: outs, ram_before, frames });
+    }
+
     let mut safe = Vec::new();
 
     for g in [g0, g1, g2] {
@@ -374,6 +423,10 @@ pub fn run_c08(case: &C08Case, info: &mut CaseInfo) -> Result<(), Fail> {
 
     if case.devices.iter().any(|d| d.coe) {
         info.label("coe-pdo-config");
+    }
+
+    if case.dc_first {
+        info.label("dc-sync-configured-before-the-pdi");
     }
 
     if case.devices.iter().any(|d| d.strict) {
